@@ -38,6 +38,8 @@ def canon(t: Any, params: List[str], keep_visits: bool = True) -> Any:
         if isinstance(x, tuple):
             if x in pmap:
                 return pmap[x]
+            if len(x) == 2 and x[0] == "global" and isinstance(x[1], str) and x[1].startswith("func_adl."):
+                return ("global", "func_adl:" + x[1].rsplit(".", 1)[-1])  # a package function is the same wherever it lives
             if x and x[0] == "app" and len(x) == 5:
                 callee, args, kws, site = go(x[1]), go(x[2]), go(x[3]), x[4]
                 if site not in sites:
